@@ -71,7 +71,7 @@ Theorem C07_exact_umn :
   forall plf fx alts mode w enum l,
     NoDup enum -> umn_listing_gen plf fx alts mode w enum = Ok l ->
     exists links fes,
-      umn_scan plf alts w (enum_order fx enum) [] [] =
+      umn_scan plf fx alts w (enum_order fx enum) [] [] =
         Ok (filter (visible_umn alts w) (enum_order fx enum), links) /\
       prep_entries (fx_skip_child fx) (umn_child plf mode w)
         (sort_names (filter (visible_umn alts w) (enum_order fx enum))) = Ok fes /\
